@@ -276,6 +276,75 @@ func TestGenC13(t *testing.T) {
 			q.stat("distinct_nontrivial", 1)
 		}
 	}
+	// (b3) live peers whose applications are not receiving for a while: each side has sent the other n+1 messages,
+	// nobody calls Recv; every packet (pings and their answers included) is delivered at once. Keepalive must not
+	// close the connection: the peer answers every ping within microseconds. (n >= 3: with n <= 2 the packet that
+	// found no room at the receiver and the ping fill the sender's window, no further ping can be sent, and the
+	// retransmissions of that packet are not answered while the peer's application is not receiving: the premise
+	// "the peer answers" does not hold then.)
+	for _, n := range []int{3, 5} {
+		id++
+		cfg := simCfg{id: fmt.Sprintf("u%d", id), n: uint8(n), ping: time.Second, pong: 500 * time.Millisecond, static: 2 * time.Second}
+		l.keep = l.keep[:0]
+		l.o.line("BEGIN %s n=%d chunk=0 ping=%d pong=%d class=alive", cfg.id, n, int64(cfg.ping), int64(cfg.pong))
+		pan := bubble(t, func(t *testing.T) {
+			l.start = time.Now()
+			l.last = 0
+			base := runtime.NumGoroutine()
+			s := newSim(t, l, cfg)
+			if !s.cleanHandshake() {
+				q.fail("c13:handshake", cfg.id)
+				s.finish(base)
+				return
+			}
+			deliverAll := func() {
+				for k := 0; k < 200; k++ {
+					moved := false
+					for x := 0; x < 2; x++ {
+						if s.canOp(x) {
+							s.op(x, "deliver")
+							moved = true
+						}
+					}
+					if !moved {
+						return
+					}
+				}
+			}
+			for i := 0; i <= n; i++ {
+				for x := 0; x < 2; x++ {
+					deliverAll()
+					if sb, _ := s.busy(x); !sb {
+						s.send(x, []byte{byte(0xA0 + x), byte(i)})
+					}
+				}
+			}
+			start := time.Now()
+			closed := false
+			for time.Since(start) < 12*time.Second && !closed {
+				deliverAll()
+				s.advance(50 * time.Millisecond)
+				for x := 0; x < 2; x++ {
+					for _, e := range l.keep[max(0, len(l.keep)-6):] {
+						if e == fmt.Sprintf("TX %d 05", x) {
+							closed = true
+						}
+					}
+				}
+			}
+			q.check(!closed, "c13:live-peer-closed:application-not-receiving", func() string {
+				return fmt.Sprintf("scenario %s: n=%d ping=1s pong=0.5s; each side sent %d messages, no Recv is called; every packet is delivered at once: a FIN was sent after %v; last events %v", cfg.id, n, n+1, time.Since(start), lastN(l.keep, 16))
+			})
+			s.finish(base)
+		})
+		l.o.line("END %s", cfg.id)
+		if pan != "" {
+			q.fail("c13:bubble-panic", cfg.id+": "+truncate(pan, 300))
+		}
+		q.stat("live_peer_scenarios", 1)
+		q.stat("live_peer_application_not_receiving", 1)
+		q.stat("distinct_nontrivial", 1)
+	}
 	_ = r
 	_ = synctest.Wait
 	// (c) rendezvous transport, real time: a send returns only when the peer has taken the packet, and for a ping
